@@ -98,6 +98,10 @@ StrClauses(o) ==
       ELSE IF ~Ok(o.rdesc) THEN C("RegexLiteral:escape-exception")
       ELSE IF \E i \in 1..Len(o.rdesc.out.esc) : o.rdesc.out.esc[i] = o.rdelim /\ ~EscapedAt(o.rdesc.out.esc, i) THEN C("RegexLiteral:escaped-bare-delimiter")
       ELSE IF UnescapePairs(o.rdesc.out.esc) # o.rdesc.out.plain THEN C("RegexLiteral:escapes-undone")
+      \* every path of a backend that has the form as template variable hands the template the form for ITS delimiter
+      \* (<<-1>>: the value does not take that path - e.g. a value without wildcard is no wildcard match)
+      ELSE IF ~Ok(o.rdpaths) THEN C("RegexLiteral:backend-exception")
+      ELSE IF \E k \in 1..Len(o.rdpaths.out) : o.rdpaths.out[k] # <<(0 - 1)>> /\ o.rdpaths.out[k] # o.rd.out.text THEN C("RegexLiteral:backend-path-differs")
       ELSE NoC,
       \* regex transformation: plain = same language; the two ignore-case methods = the case-insensitive language
       LET SubjCI == SeqsUpTo({o.subjci[j] : j \in 1..Len(o.subjci)}, 3)
